@@ -127,7 +127,7 @@ Proof. unfold zmax. induction l as [|x l IH]; cbn [fold_right]; lia. Qed.
 Lemma probe_offsets_nonneg ps probes cmap off p : 0 <= off -> 0 <= zassoc p (probe_offsets ps probes cmap off).
 Proof.
   revert off. induction ps as [|q ps IH]; intros off Ho; cbn [probe_offsets zassoc]; [lia|].
-  destruct (p =? q); [exact Ho|]. apply IH. unfold sel_max. pose proof (zmax_nonneg (map snd (filter (fun pc => fst pc =? q) (combine probes cmap)))). lia.
+  destruct (p =? q); [exact Ho|]. apply IH. unfold sel_max. apply zmax_nonneg.
 Qed.
 (* hence every re-based raw index is at most some channel-map entry *)
 Lemma raw_ind_le probes cmap z : In z (raw_ind probes cmap) -> exists c, In c cmap /\ z <= c.
